@@ -79,11 +79,9 @@ func genScalar(tp *kernel.Tape, proto int) wType {
 		n -= 2 // smallint / tinyint exist from v4
 	}
 	if extraScalars && proto >= 4 && tp.Chance(1, 3) {
-		m := len(extraScalarIDs)
-		if proto < 5 {
-			m-- // duration
-		}
-		return wType{ID: extraScalarIDs[tp.Next(m)]}
+		// (duration is a protocol 5 type id; the byzantine node, the only user of this list,
+		// describes columns with it on protocol 4 as well)
+		return wType{ID: extraScalarIDs[tp.Next(len(extraScalarIDs))]}
 	}
 	return wType{ID: scalarIDs[tp.Next(n)]}
 }
@@ -267,7 +265,24 @@ func genValue(tp *kernel.Tape, t wType, proto int) (interface{}, []byte) {
 		b[6], b[8] = 0x10, 0x80
 		return nil, b
 	case cqlspec.TDuration:
-		return nil, [][]byte{{0, 0, 0}, {2, 4, 6}, {0xc1, 0x00, 0x02, 0x04}}[tp.Next(3)]
+		if tp.Chance(1, 2) {
+			return nil, [][]byte{{0, 0, 0}, {2, 4, 6}, {0xc1, 0x00, 0x02, 0x04}}[tp.Next(3)]
+		}
+		// three vints (months, days, nanoseconds) of 1 to 9 bytes each: the number of
+		// leading one bits of the first byte says how many bytes follow it
+		var b []byte
+		for i := 0; i < 3; i++ {
+			extra := []int{0, 1, 2, 3, 8, 7, 4}[tp.Next(7)]
+			first := byte(0xff) << uint(8-extra)
+			if extra < 7 {
+				first |= byte(tp.Next(1 << uint(7-extra)))
+			}
+			b = append(b, first)
+			for j := 0; j < extra; j++ {
+				b = append(b, byte(tp.Next(256)))
+			}
+		}
+		return nil, b
 	case cqlspec.TList, cqlspec.TSet:
 		n := tp.Next(4)
 		et := t.Elems[0]
